@@ -1,1 +1,2 @@
+import Neutrino.Props.C11
 import Neutrino.Props.C16
